@@ -808,12 +808,39 @@ def gen_config(rng):
             hints += [path, path + '/', path + '/extra', path.rsplit('/', 1)[0] or '/']
     hints += ['/', '/zz', '/r0/7', '/s0/12', '/st0/common.txt', '/abc/def.txt', '/r1/abc', '/r1/12', '/r2/x/sub',
               '/R0/x', '/r0/x', '/r0/X', '/St0/common.txt', '/ST0/common.txt', '/S0/12']
+    # a resource gains / loses responders between two add_* calls (only unsuffixed ones are removed, so that a
+    # later suffixed route still finds a responder)
+    if rng.random() < 0.3:
+        current = [set(r['callable']) for r in resources]
+        plain = {M.responder_name(m) for m in M.http_verbs() + M.META}
+        last = 0
+        for _ in range(rng.randint(1, 2)):
+            ri = rng.randrange(len(resources))
+            sfxs = [None] + resources[ri]['suffixes']
+            add = {M.responder_name(rng.choice(M.http_verbs()), rng.choice(sfxs)) for _ in range(rng.randint(0, 2))}
+            add -= current[ri] | set(resources[ri].get('noncallable', []))
+            removable = sorted(current[ri] & plain)
+            remove = set(rng.sample(removable, min(len(removable), rng.randint(0, 2))))
+            if not add and not remove:
+                continue
+            current[ri] = (current[ri] | add) - remove
+            last = rng.randint(last, len(ops))      # changes happen in the order they are generated
+            ops.insert(last, ['mutate', ri, sorted(add), sorted(remove), rng.random() < 0.5])
+            last += 1
+    if rng.random() < 0.25:
+        g = rng.randrange(2)
+        for r in resources:
+            r['eq'] = g                 # all resources of this app compare equal and hash alike
+    wrap = {}
+    if rng.random() < 0.3:
+        kind = rng.choice(['enum', 'loud'])
+        wrap = {str(i): kind for i in range(len(ops)) if rng.random() < 0.6}
     mw = None
     if rng.random() < 0.35:
         mw = {'hook': rng.choice(['request', 'resource']), 'status': rng.choice([None, 202, 202, 404, 201]),
               'allow': rng.choice([None, None, 'BOGUS', 'GET, BOGUS', '']), 'dependent': rng.random() < 0.3}
     return {'stack': rng.choice(['wsgi', 'asgi']), 'sink_first': rng.random() < 0.5,
-            'resources': resources, 'ops': ops, 'mw': mw, 'own_router': rng.random() < 0.15,
+            'resources': resources, 'ops': ops, 'mw': mw, 'wrap': wrap, 'own_router': rng.random() < 0.15,
             'compile_now': rng.random() < 0.25}, sorted(set(hints))
 
 
@@ -948,11 +975,11 @@ def run(rec):
             rec.floor('cls.preset-allow.%s.%s' % (hook, cls), 40)
     for cls in ('sink', 'static', '404'):
         rec.floor('cls.preset-status.request.%s' % cls, 40)
-    rec.floor('exh.arg-type-configs', 112)
+    rec.floor('exh.arg-type-configs', 56)
     rec.floor('exh.equal-resource-configs', 8)
     for kind in ('enum', 'loud'):
-        for c in ('route.responder', 'route.405', 'route.auto-options', 'sink', 'static'):
-            rec.floor('cls.strsub-%s.%s' % (kind, c), 40)
+        for c, n in (('route.responder', 40), ('route.405', 10), ('route.auto-options', 10), ('sink', 40), ('static', 40)):
+            rec.floor('cls.strsub-%s.%s' % (kind, c), n)
     for c in ('responder', '405', 'auto-options'):
         rec.floor('cls.route-added-after-resource-changed.' + c, 40)
     rec.floor('cls.equal-but-distinct-resource.responder', 40)
